@@ -612,7 +612,10 @@ impl ZiPatch {
                                         Vec::with_capacity(fop.file_size as usize);
 
                                     while data.len() < fop.file_size as usize {
-                                        data.append(&mut read_data_block_patch(&mut file).unwrap());
+                                        data.append(
+                                            &mut read_data_block_patch(&mut file)
+                                                .ok_or(PatchError::ParseError)?,
+                                        );
                                     }
 
                                     // re-apply crc32
